@@ -7,7 +7,10 @@
 //
 //	C12.cover  EncodedX.SigCovered = bytes handed to the signer = SigCovered returned by
 //	           ReadData/ReadInterest, contiguous and for every enumerated segmentation;
-//	C12.accept the matching shipped validator accepts the decoded packet;
+//	C12.accept the matching shipped validator accepts the decoded packet; a packet the API refuses to
+//	           build because the shipped signer returned a signature longer than its own
+//	           EstimateSize is a violation (ECDSA: every curve signs until the longest DER length
+//	           class of the curve was seen, see evalSweep);
 //	C12.digest an Interest with parameters ends in the SHA-256 (computed by the harness over the
 //	           independently located ApplicationParameters..end bytes) and every single-bit
 //	           corruption of that digest component is rejected on decode;
@@ -56,6 +59,9 @@ type item struct {
 	d     pktgen.Desc
 	depth int  // number of deviations
 	sweep bool // outer-length boundary sweep case: built repeatedly, no tampering
+	// lenClass: ECDSA length-class case: built (signed) until the longest and the two next DER length
+	// classes of the key's curve were seen or lenClassTries builds were made
+	lenClass bool
 }
 
 type space struct {
@@ -90,8 +96,11 @@ func buildSpace(thorough bool) *space {
 	var prim, sec, keyv []pktgen.Base
 	refused := map[string]string{}
 	try := func(name string, d pktgen.Desc, primary bool) {
-		b := pktgen.Build(&d)
-		if b.Err != nil {
+		// Whether a base is in the space must not depend on one random signature: a refusal caused by
+		// a signature longer than the signer's own estimate (ECDSA lengths vary from call to call) is
+		// not a refusal of the base; the cases built from it report that as a violation.
+		b := pktgen.BuildRetry(&d, 64)
+		if b.Err != nil && !b.SigTooLong() {
 			refused[name] = b.Err.Error()
 			return
 		}
@@ -156,7 +165,25 @@ func buildSpace(thorough bool) *space {
 	for _, c := range sw {
 		sweep = append(sweep, item{label: c.Label, d: c.Desc, depth: 1, sweep: true})
 	}
-	sp.cases = append(sweep, sp.cases...)
+	// ECDSA length classes: every ECDSA signer mode (all curves, incl. the key variants) x the four
+	// signed base shapes the API builds for that mode
+	var lc []item
+	for si, sg := range pktgen.Signers() {
+		if sg.Family != "ecdsa" || sg.FailsToSign {
+			continue
+		}
+		di, dd := i1, d1
+		di.Signer, dd.Signer = si, si
+		for _, b := range []pktgen.Base{{Name: "I1", Desc: di}, {Name: "I2", Desc: pktgen.Desc{Interest: true, Name: two, PaySize: 3, Signer: si}},
+			{Name: "D0", Desc: pktgen.Desc{Name: two, PaySize: -1, Signer: si}}, {Name: "D1", Desc: dd}} {
+			if _, no := refused[b.Name+"+"+sg.Name]; no {
+				continue
+			}
+			lc = append(lc, item{label: fmt.Sprintf("%s + signer=%s + every signature length class of the curve (P-%d: %d, %d, %d bytes)", b.Name, sg.Name, sg.CurveBits,
+				pktgen.EcdsaMaxDER(sg.CurveBits), pktgen.EcdsaMaxDER(sg.CurveBits)-1, pktgen.EcdsaMaxDER(sg.CurveBits)-2), d: b.Desc, depth: 0, lenClass: true})
+		}
+	}
+	sp.cases = append(append(lc, sweep...), sp.cases...)
 	return sp
 }
 
@@ -567,7 +594,7 @@ func rebuildFromName(cc *caseCtx, a *pktgen.Built) {
 
 func evalCase(s *space, idx int, startBit int, careful bool, thorough bool, deadline time.Time) {
 	it := s.cases[idx]
-	if it.sweep {
+	if it.sweep || it.lenClass {
 		evalSweep(s, idx)
 		return
 	}
@@ -593,6 +620,9 @@ func evalCase(s *space, idx int, startBit int, careful bool, thorough bool, dead
 		return
 	}
 	delayedVerify(cc, b)
+	if tooLong(cc, b) {
+		return
+	}
 	if b.Err != nil {
 		cc.stat["api_refused"]++
 		cc.note("api_refused", kind(&d)+": "+errClass(b.Err))
@@ -1005,32 +1035,95 @@ func varNum(v uint64) []byte {
 	return []byte{0xff, byte(v >> 56), byte(v >> 48), byte(v >> 40), byte(v >> 32), byte(v >> 24), byte(v >> 16), byte(v >> 8), byte(v)}
 }
 
-// evalSweep: one case of the outer-length boundary sweep. The packet is built and signed until
-// three different signature lengths were seen or sweepTries builds were made (ECDSA signature
-// lengths vary run to run); every build must decode, cover the signed bytes and verify.
-const sweepTries = 24
+// tooLong reports (and returns true) when the packet API refused the packet because the shipped
+// signer returned a signature longer than the size it announced itself: the input is valid, the
+// signer is shipped, and no packet that could verify exists.
+func tooLong(cc *caseCtx, b *pktgen.Built) bool {
+	if !b.SigTooLong() {
+		return false
+	}
+	cc.stat["builds_refused_signature_longer_than_estimate"]++
+	who := b.SignerSp.Name
+	if b.SignerSp.CurveBits > 0 {
+		who = fmt.Sprintf("ecdsa signer, P-%d key", b.SignerSp.CurveBits)
+	}
+	cc.viol("C12.accept", "a shipped signer's signature is longer than its own EstimateSize: the packet API refuses to build the signed packet ("+who+")",
+		fmt.Sprintf("EstimateSize()=%d, ComputeSigValue returned %d bytes: %v", b.Rec.Inner.EstimateSize(), len(b.Rec.SigVal), b.Err), nil)
+	return true
+}
+
+// evalSweep: one case of the outer-length boundary sweep or of the ECDSA length-class pass. The
+// packet is built and signed repeatedly (ECDSA signature lengths vary run to run): a sweep case
+// until three different signature lengths were seen or sweepTries builds were made; a length-class
+// case until the longest DER signature of the key's curve and the two next shorter lengths were
+// seen or lenClassTries builds were made (the longest class has probability >= 1/4 per signature,
+// so missing it in 256 builds has probability < 1e-31; if it happens the case is recorded as
+// capped). Every build must succeed, decode, cover the signed bytes and verify.
+const (
+	sweepTries    = 24
+	lenClassTries = 256
+)
 
 func evalSweep(s *space, idx int) {
 	it := s.cases[idx]
 	d := it.d
 	cc := &caseCtx{idx: idx, label: it.label, d: &d, stat: map[string]int64{}, sets: map[string]map[string]bool{}}
-	defer func() { emit(msg{T: "stat", I: idx, Stat: cc.stat}) }()
-	cc.stat["sweep_cases"]++
+	defer func() {
+		sets := map[string][]string{}
+		for k, m := range cc.sets {
+			for v := range m {
+				sets[k] = append(sets[k], v)
+			}
+		}
+		emit(msg{T: "stat", I: idx, Stat: cc.stat, Sets: sets})
+	}()
+	tries, maxDER := sweepTries, 0
+	if it.lenClass {
+		cc.stat["ecdsa_length_class_cases"]++
+		tries = lenClassTries
+		maxDER = pktgen.EcdsaMaxDER(pktgen.Signers()[d.Signer].CurveBits)
+	} else {
+		cc.stat["sweep_cases"]++
+	}
 	seen := map[int]bool{}
+	sigLens := map[int]bool{}
 	crossed := false
-	for try := 0; try < sweepTries && len(seen) < 3; try++ {
+	stop := func() bool {
+		if it.lenClass {
+			return sigLens[maxDER] && sigLens[maxDER-1] && sigLens[maxDER-2]
+		}
+		return len(seen) >= 3
+	}
+	defer func() {
+		if it.lenClass && !sigLens[maxDER] && cc.stat["ecdsa_length_class_builds"] >= lenClassTries {
+			cc.stat["ecdsa_length_class_cases_capped_longest_class_not_seen"]++
+		}
+	}()
+	for try := 0; try < tries && !stop(); try++ {
 		b := pktgen.BuildWith(&d, pool)
 		cc.b = b
 		cc.replay = map[string]any{"case": cc.label, "desc": d.String(), "case_index": idx}
+		if tooLong(cc, b) {
+			return
+		}
 		if b.Err != nil || b.Panic != "" {
 			return
 		}
+		sigLens[len(b.Rec.SigVal)] = true
+		if it.lenClass {
+			cc.stat["ecdsa_length_class_builds"]++
+			if len(b.Rec.SigVal) > maxDER {
+				cc.note("ecdsa_signature_longer_than_the_DER_maximum_of_its_curve", fmt.Sprintf("%s: %d bytes", b.SignerSp.Name, len(b.Rec.SigVal)))
+			}
+		}
 		delayedVerify(cc, b)
 		cc.replay["bytes"] = hexCap(b.Bytes)
-		cc.stat["sweep_builds"]++
+		if !it.lenClass {
+			cc.stat["sweep_builds"]++
+		}
 		_, est, shrink, crosses := b.OuterLengths()
 		seen[shrink] = true
-		if crosses {
+		if crosses && !it.lenClass {
 			crossed = true
 			if est < 65536 {
 				cc.stat["sweep_builds_length_field_shrank_3_to_1_bytes"]++
@@ -1056,6 +1149,9 @@ func evalSweep(s *space, idx int) {
 			if validate(b.SignerSp, o) {
 				if cc.held != nil {
 					cc.held.validOK = true
+				}
+				if it.lenClass {
+					cc.note("ecdsa_signature_lengths_built_and_verified", fmt.Sprintf("%s: %d bytes", b.SignerSp.Name, len(b.Rec.SigVal)))
 				}
 			} else {
 				key := "matching validator rejects an untampered packet (" + b.SignerSp.Family + " signer, " + b.SignerSp.Family + " validator)"
@@ -1523,7 +1619,7 @@ func main() {
 		"distinct_nontrivial": stat["nontrivial_cases"],
 		"rule":                "enumerated cases (pairwise different descriptions) for which the real API built a packet that carries a signature computed by a shipped signer and/or application parameters with a digest, whose contiguous decode succeeded and whose covered bytes / digest were then compared, segmented and tampered with",
 		"samples":             samples.List(),
-		"exhaustive":          !capped,
+		"exhaustive":          !capped && stat["ecdsa_length_class_cases_capped_longest_class_not_seen"] == 0,
 		"cases_enumerated":    len(s.cases),
 		"counters":            stat,
 		"observed":            setsOut,
@@ -1535,6 +1631,7 @@ func main() {
 			"shapes":               "bases {Interest all-optional-fields, Interest minimal+parameters, Data plain, Data all-MetaInfo+content} x every signer mode, plus two unsigned Interests with parameters; quick tier: every <=1 deviation of the C03 generator (signer dimension excluded; name shapes with 4-8 zero-length components, present-but-empty parameters included) for the primary modes and the unsigned Interests, base shape + payload-size deviations (up to 253 bytes) for the other modes, base shapes for the key-material variants; thorough tier: every <=2 deviations for every mode",
 			"primary_modes":        s.primary,
 			"key_material":         fmt.Sprintf("besides the default keys: HMAC keys of %v bytes (around the SHA-256 digest and block sizes) for the Data and the Interest HMAC signer, a second ECDSA P-256 key and a second RSA-2048 key, each on the four base shapes (all clauses incl. every-bit tampering)", pktgen.HmacKeyLens),
+			"ecdsa_length_classes": fmt.Sprintf("every ECDSA signer mode (P-224, P-256 x2 keys incl. cert/int modes, P-384, P-521) x the signed base shapes the API builds for it: built and signed until the longest DER signature of the curve (computed by the harness from X.690: 64/72/104/139 bytes) and the two next shorter lengths were seen, or %d builds; every build must succeed (a signature longer than the signer's own EstimateSize is a C12.accept violation), decode, cover and verify; crypto/rand-driven repetition (the signers hard-wire rand.Reader), not an enumeration; lengths under observed.ecdsa_signature_lengths_built_and_verified, a case that never saw the longest class is counted in ecdsa_length_class_cases_capped_longest_class_not_seen and makes the run non-exhaustive", lenClassTries),
 			"outer_length_sweep":   "4 base shapes x every ECDSA mode x payload sizes putting the ESTIMATED outer length on 250..258 and 65533..65540; each case built until 3 different signature lengths were seen or 24 builds; cover+accept on every build (counters sweep_*)",
 			"signer_histories":     "per signer family (sha256, hmac, ecdsa, rsa): every ordered pair of signing calls over all modes of the family (incl. key variants and the RSA-384 signers whose every signing call fails) x {Data, Interest}, with one signer object per mode and with a fresh object per call, plus every triple with one failing call first or in the middle; each built packet checked (decode, cover, validator) right after signing and after the sequence; single-threaded, GC off inside a sequence",
 			"context_reuse":        "one spec.PacketParsingContext per worker parses every signed packet (Init; Parse): its SigCovered must equal the signer's input, and the wire it returned for the previous packet must be unchanged and still verify after Init + Parse of the current packet",
@@ -1544,6 +1641,9 @@ func main() {
 			"tamper_resize":        "for every packet with a validator: the signature value with one zero byte / its first byte / itself appended, and with its last / first byte removed, all enclosing TLV lengths adjusted (the title's 'verify iff untampered' beyond single-bit flips); must be rejected by the decoder or the validator",
 			"tamper":               "every bit of the signed portion, SignatureValue element, ApplicationParameters element and digest component when these total <=700 bytes; above: every bit of the bytes within 4 of an element boundary and one bit of every 251st (thorough, sha256/hmac/unsigned: 7th) other byte; P-521 (verification ~1 ms): quick tier base shapes only with bits 0 and 7 of every byte, thorough tier <=1-deviation shapes with every bit",
 		},
+	}
+	if n := stat["ecdsa_length_class_cases_capped_longest_class_not_seen"]; n > 0 {
+		cov["cap_ecdsa_length_classes"] = fmt.Sprintf("%d ECDSA length-class cases never produced the longest signature of their curve in %d signings", n, lenClassTries)
 	}
 	if capped {
 		cov["cap"] = fmt.Sprintf("time budget %s reached; cases are ordered by number of deviations", budget)
